@@ -55,15 +55,15 @@ seeded changes and which check catches which in §11.
   | U3 | `core::skip_ansi_escape_sequence`, `display_width`, `strip_ansi_escape_sequences` | exact functional spec (`dw`), `<=` byte length, chunk lemmas, the stripped string is the text without its escape sequences; termination (ghost counter) | C10, C05, C13, C04 |
   | U4 | `line_ending::NonEmptyLines::next` | exact spec, every slice on a char boundary, terminates | C15, C04 |
   | U5 | `columns::wrap_columns` | the complete layout of C20 relative to whatever `wrap` returns; no panic; theorem: for well-formed texts whose lines fit, every row is exactly gaps + columns + remainder wide | C20, C04 |
-  | U6 | `core::Word::from`, `core::break_words` | lossless, spaces-only whitespace, cached width; dispatch is lossless / identity for narrow words | C11, C12, C01, C02 |
+  | U6 | `core::Word::from`, `core::break_words` | lossless, spaces-only whitespace, cached width; dispatch is lossless / identity for narrow words; words that hold no space stay so (`tails_ok`) | C11, C12, C01, C02 |
   | U8 | `indentation::indent` | equals the spec function of C19 | C19, C04 |
   | U9 | `indentation::dedent` | removes exactly the margin the statement defines | C18, C04 |
   | U10 | `fill::fill_inplace` | same length; bytes change only `' '` → `'\\n'`, and exactly at the run ends first-fit makes of each line's ASCII words; `from_utf8(..).unwrap()` cannot fail | C17, C04 |
-  | U11 | `wrap::wrap`, `wrap_single_line`, `wrap_single_line_slow_path` | every line starts with its indent; **for the whole text** line k is `indent_k ++ text[a_k..b_k] ++ (nothing \| "-")` with slices in order, on char boundaries, separated only by spaces and at most one line ending; the line breaker gets the widths of the indents actually rendered (and a zero-width first fragment when the first line is the narrower one); >= 1 line per paragraph, earlier lines untouched; the shortcut's exact result, and (first-fit, built-in splitters) the slow path gives that same line when entered under the shortcut's condition; **`wrap` computes the paragraph-wise function `wrap_fn(split(text, E), options)`** (each of the three functions: the appended lines are a function of paragraph, options and "does it start the output"), with the relational clauses of C09 (independence of paragraphs, `wrap(b)` for empty indents, never fewer lines than paragraphs, LF↔CRLF) and C08 (what follows the indent depends on the indents' widths and emptiness only) as theorems over it | C08, C01, C02, C09, C05, C04 |
+  | U11 | `wrap::wrap`, `wrap_single_line`, `wrap_single_line_slow_path` | every line starts with its indent; **for the whole text** line k is `indent_k ++ text[a_k..b_k] ++ (nothing \| "-")` with slices in order, on char boundaries, separated only by spaces and at most one line ending; **no slice ends in a space** (ASCII-space separator, built-in splitters); the line breaker gets the widths of the indents actually rendered (and a zero-width first fragment when the first line is the narrower one); >= 1 line per paragraph, earlier lines untouched; the shortcut's exact result, and (first-fit, built-in splitters) the slow path gives that same line when entered under the shortcut's condition; **`wrap` computes the paragraph-wise function `wrap_fn(split(text, E), options)`** (each of the three functions: the appended lines are a function of paragraph, options and "does it start the output"), with the relational clauses of C09 (independence of paragraphs, `wrap(b)` for empty indents, never fewer lines than paragraphs, LF↔CRLF) and C08 (what follows the indent depends on the indents' widths and emptiness only) as theorems over it | C08, C01, C02, C09, C05, C04 |
   | U12 | `fill::fill_slow_path`, `fill::fill` | both equal `wrap`'s lines joined by the line ending — shortcut included | C09, C05, C04 |
-  | U13 | `word_separators::find_words_ascii_space` (closure, R16) | words are `Word::from(line[s0..s1])` at exactly the space→non-space boundaries; they tile the line | C11, C01, C17 |
-  | U14 | `word_splitters::split_words` (closure, R16) | pieces cut exactly at the split points, hyphen penalty rule, whitespace/penalty on the last piece only; tiling | C12, C01 |
-  | U15 | `core::Word::break_apart` (closure, R16) | non-empty pieces, concatenation, width limit unless a single non-zero-width char, maximality, never inside an escape sequence, cached widths | C12, C13, C01 |
+  | U13 | `word_separators::find_words_ascii_space` (closure, R16), `WordSeparator::find_words` (the dispatcher), `enum WordSeparator` | words are `Word::from(line[s0..s1])` at exactly the space→non-space boundaries; they tile the line; no word holds a space and only the first can be without text (`tails_ok`); `AsciiSpace` is served by `find_words_ascii_space` on the same line | C11, C01, C17 |
+  | U14 | `word_splitters::split_words` (closure, R16) | pieces cut exactly at the split points, hyphen penalty rule, whitespace/penalty on the last piece only; tiling; pieces of a word with text are non-empty sub-slices (`tails_ok` kept) | C12, C01 |
+  | U15 | `core::Word::break_apart` (closure, R16) | non-empty pieces, concatenation, width limit unless a single non-zero-width char, maximality, never inside an escape sequence, cached widths; every piece is a sub-slice of the word's text | C12, C13, C01 |
   | U16 | `WordSplitter::split_points` (hyphen splitter) | exactly the positions after a `-` with alphanumerics on both sides; increasing char boundaries; each directly after a `-` byte | C12, C05 |
   | U17 | `WrapAlgorithm::wrap` (dispatch), `Word`'s `Fragment` impl | hands the words and every listed width to the algorithm unchanged and its partition back; accessors are pure functions of the fields; first-fit keeps words that all fit the first line on one line (A16) | C06, C07, C03, C05, C01 |
   | U18 | `refill::unfill` | indents are prefixes made of prefix characters; no inner line break; line-ending rule; width == display width of the widest line; all slices safe | C15, C04 |
@@ -88,8 +88,8 @@ seeded changes and which check catches which in §11.
   - C13 end to end, C14, the round trips of C15 / C16, the agreement of `fill_inplace` with `wrap` (C17), C18's two corollaries:
     relational statements that compare runs on *different* inputs through more than the paragraph structure.
   C09's and C08's relational clauses, by contrast, are theorems over `wrap`'s functional postcondition (U11, §2.9).
-* **Robustness of the machinery** (§8, §11): 168 seeded property-breaking changes that compile and pass the upstream suite
-  (5 reverted fixes + 163 from independent sub-agents in eleven waves) are all reported; 25 + 12 behaviour-preserving refactors, 16 small edits and 137 renames of locals
+* **Robustness of the machinery** (§8, §11): 175 seeded property-breaking changes that compile and pass the upstream suite
+  (5 reverted fixes + 170 from independent sub-agents in twelve waves) are all reported; 25 + 12 behaviour-preserving refactors, 16 small edits and 137 renames of locals
   raise no alarm; every unit verifies under 8 different SMT seeds; the unchanged tree passes all 20 checks in both tiers.
 """)
 w(s1.rstrip()+"\n")
@@ -214,7 +214,8 @@ restatement and callee would show up there within scope.
 | U11 `vx_find_words`: words tile the line, cached widths correct | U13 `vx_collect_ascii_words`, U20 `vx_collect_unicode_words` | same clauses (providers prove more); `Custom` separator: A15 |
 | U11 `vx_split_words`: tiling kept, cached widths correct | U14 `vx_split_words_collect` | same clauses |
 | U11 `break_words` (requires cached widths correct): tiling kept | U6 `break_words` | same clause, same precondition |
-| U6 `vx_vec_extend_break_apart` (requires non-empty text) | U15 `vx_break_apart_collect` | same clauses |
+| U6 `vx_vec_extend_break_apart` (requires non-empty text) | U15 `vx_break_apart_collect` | same clauses (pieces non-empty, each a sub-slice `is_sub` of the word's text) |
+| U11 `vx_find_words` (`is_ascii_space(sep) ==> tails_ok`), `vx_split_words` (`is_builtin_splitter && tails_ok(in) ==> tails_ok(out)`), `break_words` (`tails_ok(in) ==> tails_ok(out)`) — C01's last sentence | U13 `find_words` (the dispatcher: `AsciiSpace` selects `find_words_ascii_space` on this line) + `vx_collect_ascii_words`; U14 `vx_split_words_collect`; U6 `break_words` (+ U15) | same predicate `tails_ok` (same text in the four units: no word holds a space; a word without text has nothing in front of it); U14 proves it for every splitter whose split points satisfy `valid_points` (the built-in ones: U16), U11 uses it for the built-in ones only; `is_ascii_space(sep)` in U11 stands for `sep is AsciiSpace` in U13 |
 | U11, U13, U20 `vx_word_from` / `word_from_post` | U6 `Word::from` | the five clauses of U6, or a subset |
 | U11 `vx_wrap_algorithm_wrap`: ordered partition | U17 `WrapAlgorithm::wrap` → U1, U2 (`partition`) | same four clauses (`runs_concat` and `concat_lines` are the same fold) |
 | U10 `vx_ascii_find_words_collect`, `vx_wrap_first_fit_1` | U13, U1 | same clauses, plus "the result is a function of the argument" (purity) |
@@ -431,8 +432,8 @@ the property states.
 
 ## 11. Seeded changes and what catches them
 
-`seeded/` holds 168 changes that compile, pass the upstream suite in both feature sets, and break a property: the 5 reverted
-fixes and 163 produced by independent sub-agents given **only** the property text and a scratch worktree:
+`seeded/` holds 175 changes that compile, pass the upstream suite in both feature sets, and break a property: the 5 reverted
+fixes and 170 produced by independent sub-agents given **only** the property text and a scratch worktree:
 
 * waves 1–2 (40): two per property;
 * wave 3 (20): cooperating edits, indirect helpers, wrong fast paths;
@@ -446,7 +447,11 @@ fixes and 163 produced by independent sub-agents given **only** the property tex
 * wave 10 (14): changes *disguised as refactors* — renamed locals, restructured loops, extracted helpers, with one of the "equivalent"
   rewrites not equivalent — all reported as the checks stood: where the restructuring leaves the Verus unit undecided, the bounded
   contracts of the same property decide;
-* wave 11 (6): more of that kind for C03, C04, C10, C13, C14, C16 — three misses on first contact, see the table.
+* wave 11 (6): more of that kind for C03, C04, C10, C13, C14, C16 — three misses on first contact, see the table;
+* wave 12 (7): aimed at the clauses that are decided by bounded enumeration only (C01's trailing-space sentence, C02 at text level,
+  C05's first sentence, C13 end to end, C15's round trip, C17's agreement with `wrap`, C18's corollaries) — six reported as the
+  checks stood (two of them by a Verus obligation all the same: U15's `break_apart` postcondition, U22's conversion contract), one
+  miss, see the table.
 
 Each change was confirmed by `tools/seedverify.sh` (patch applies; suite passes in both feature sets; its demonstration fails with
 the patch and passes without). `tools/seedtest.py` applies each to `/repo`, runs the checks of the properties it breaks, and undoes
@@ -474,9 +479,10 @@ Misses on first contact (and one relabelled seed) and what was strengthened (nev
 | 11 | w11_C10_A (`find` with a stale `prev` initialised to ESC: an OSC whose payload starts with `\\` ends at once) | no `]` or BEL on their own in C10's alphabet, so `ESC ] \\` could not be formed; Verus undecided (loop turned into `find`) | `]` and BEL added to the display-width alphabet |
 | 11 | w11_C14_A (tail piece of a split word gets `word.width` minus the head widths — wrong only when a split point lies inside an escape sequence) | every failing input belongs to the input class of known finding KF6 and was suppressed with it | known findings are pinned to the recorded set of failing inputs (§5): a different set is a violation |
 | 11 | w11_C16_A (`matches!(ch, '*'..='/')` makes `,` and `.` prefix characters) | no word of the unfill / refill vocabulary starts with `.` or `,` | `.x` and `,yy` in the vocabulary, `.` and `,` in the unfill alphabet |
+| 12 | w12_C15_A (`impl From<&Options>` rebuilt through the setters, forgetting `line_ending`: `fill(t, &options)` silently uses LF) | U22 proves that conversion copies every option and rejects the change — but U22 was only part of the checks of C02, C04, C08, C09; the bounded contracts pass `Options` by value, which bypasses the conversion | U22 is now part of the check of every property whose entry point takes `Into<Options>` (C01 C05 C13 C15 C16 C20 as well); the C15 / C16 bounded contracts pass `&Options` |
 
 **Verus on its own** (`tools/seedverus.py`, `seeded/VERUS.json`: each change applied to a scratch copy, only the Verus units run):
-a Verus obligation rejects 69 of the 168 changes (1 of the 20 disguised as refactors); the others end *undecided* in Verus (a new construct without a spec, a
+a Verus obligation rejects 71 of the 175 changes (1 of the 20 disguised as refactors); the others end *undecided* in Verus (a new construct without a spec, a
 loop rewritten so that a rewrite rule no longer applies, a lost anchor) or touch code whose contract does not see them
 (`ch_width`'s table — decided by the exhaustive scalar enumeration and Kani K1). Three things raised that share (from 29 to 42 of the first 77 changes):
 (i) specs for the std functions such edits typically reach for (`str::trim_end` / `trim_start` / `trim`, `char::is_ascii`,
